@@ -174,6 +174,10 @@ pub struct KnownFinding {
     /// Specific signature of the failing scenario (engine-defined), matched exactly.
     pub signature: String,
     pub what: String,
+    /// Replay file (relative to /verif) that reproduces the finding; the check re-executes it on
+    /// every run and prints the KNOWN-FINDING line while it still reproduces.
+    #[serde(default)]
+    pub replay: Option<String>,
 }
 
 #[derive(Clone, Debug, Default, Serialize, Deserialize)]
@@ -193,8 +197,24 @@ impl KnownFindings {
             Err(_) => Self::default(),
         }
     }
+    /// A finding matches a signature exactly, or — when its last `|`-separated field starts with
+    /// `subset-of:` — when the other fields are equal and every comma-separated item of the
+    /// signature's last field is in the finding's list (and there is at least one item).
     pub fn lookup(&self, property: &str, signature: &str) -> Option<&KnownFinding> {
-        self.findings.iter().find(|f| f.property == property && f.signature == signature)
+        self.findings.iter().find(|f| {
+            if f.property != property {
+                return false;
+            }
+            if f.signature == signature {
+                return true;
+            }
+            let (Some((fh, ft)), Some((sh, st))) = (f.signature.rsplit_once('|'), signature.rsplit_once('|')) else {
+                return false;
+            };
+            let Some(allowed) = ft.strip_prefix("subset-of:") else { return false };
+            let allowed: Vec<&str> = allowed.split(',').collect();
+            fh == sh && !st.is_empty() && st.split(',').all(|i| allowed.contains(&i))
+        })
     }
 }
 
